@@ -10,7 +10,7 @@ type weights map[string]int
 
 func baseWeights() weights {
 	return weights{"send": 18, "block": 28, "relay": 26, "dup": 5, "replay": 4, "corrupt": 5, "advance": 4, "drop": 1, "partition": 1,
-		"stall": 1, "skew": 1, "crash": 2, "adv": 2, "advmsg": 1, "gov": 2, "export": 1, "pump": 6, "batch": 2, "tss": 3, "xrestart": 1}
+		"stall": 1, "skew": 1, "crash": 2, "adv": 2, "advmsg": 1, "gov": 2, "export": 1, "pump": 6, "batch": 2, "tss": 3, "xrestart": 1, "forge": 1}
 }
 
 func focusWeights(focus string) weights {
@@ -21,13 +21,13 @@ func focusWeights(focus string) weights {
 	case "C02":
 		w["corrupt"], w["dup"], w["replay"] = 16, 6, 6
 	case "C03":
-		w["send"], w["gov"], w["crash"], w["pump"] = 24, 4, 3, 10
+		w["send"], w["gov"], w["crash"], w["pump"], w["forge"] = 24, 4, 3, 10, 3
 	case "C04":
-		w["send"], w["crash"], w["relay"], w["batch"] = 34, 3, 14, 8
+		w["send"], w["crash"], w["relay"], w["batch"], w["forge"] = 34, 3, 14, 8, 3
 	case "C05":
 		w["dup"], w["replay"], w["corrupt"], w["pump"] = 12, 10, 8, 10
 	case "C06":
-		w["adv"], w["advmsg"], w["gov"], w["corrupt"], w["tss"], w["xrestart"] = 14, 6, 8, 6, 14, 3
+		w["adv"], w["advmsg"], w["gov"], w["corrupt"], w["tss"], w["xrestart"], w["forge"] = 14, 6, 8, 6, 14, 3, 5
 	case "C13":
 		w["export"], w["xrestart"] = 6, 4
 	case "C14":
@@ -65,7 +65,7 @@ func (Scenario) Generate(rng *rand.Rand, focus, tier string) kernel.Plan {
 	}
 	var keys []string
 	total := 0
-	for _, k := range []string{"send", "block", "relay", "dup", "replay", "corrupt", "advance", "drop", "partition", "stall", "skew", "crash", "adv", "advmsg", "gov", "export", "pump", "batch", "tss", "xrestart"} {
+	for _, k := range []string{"send", "block", "relay", "dup", "replay", "corrupt", "advance", "drop", "partition", "stall", "skew", "crash", "adv", "advmsg", "gov", "export", "pump", "batch", "tss", "xrestart", "forge"} {
 		keys = append(keys, k)
 		total += w[k]
 	}
@@ -117,6 +117,8 @@ func (Scenario) Generate(rng *rand.Rand, focus, tier string) kernel.Plan {
 			add("send", rng.Int63n(nc), rng.Int63n(4), invalidDst(), rng.Int63n(16), rng.Int63n(7), rng.Int63n(7), rng.Int63n(4)*rng.Int63n(2), rng.Int63n(6)+7*rng.Int63n(6))
 		case "xrestart":
 			add("xrestart", rng.Int63n(nc))
+		case "forge":
+			add("forge", rng.Int63n(nc), rng.Int63n(3), rng.Int63n(2), rng.Int63n(2))
 		case "tss":
 			add("tss", rng.Int63n(nc), rng.Int63n(4), rng.Int63n(5), rng.Int63n(4), rng.Int63n(1<<16))
 		case "batch":
